@@ -136,7 +136,7 @@ def main():
         try:
             if replay:
                 doc = json.load(open(replay, encoding="utf-8"))
-                if doc["case"].endswith("/respelled"):
+                if doc["case"].endswith(("/respelled", "/collided")) or doc["case"] == "doc-corpus":
                     cases = [C.Case(doc["case"], doc["requests"], getattr(mod, "default_compare", C.compare_run))]
                 else:
                     cases = [mod.case_from_replay(doc) if hasattr(mod, "case_from_replay") else C.Case(doc["case"], doc["requests"], mod.default_compare)]
@@ -147,15 +147,20 @@ def main():
                 if skipped:
                     stats["skipped_over_budget"] = len(skipped)
                     cases = [c for c in cases if not c.info.get("skip")]
+            if hasattr(mod, "fix_root"):
+                mod.fix_root(cases, root)
+            if not replay:
                 # respelled twins (tools/respell.py): the same programs with look-alike / same-normal-form spellings of the
                 # user names and string contents, compared model-vs-implementation
                 import respell
                 twins = respell.variants(cases, 3000 if tier == "thorough" else 300,
                                          skip_names={k.get("case") for k in C.load_known() if k.get("status") == "known"})
                 stats["respelled_twins"] = len(twins)
-                cases += twins
-            if hasattr(mod, "fix_root"):
-                mod.fix_root(cases, root)
+                # the programs the repository shows to its users (README, user_docs, test suite), read from /repo now
+                import doccorpus
+                dc = doccorpus.cases()
+                stats["doc_corpus_programs"] = len(dc)
+                cases += twins + dc
             results = C.run_cases(cases, root)
             if hasattr(mod, "extra_checks"):
                 for kind, name, text, info in mod.extra_checks(rng, tier, stats, root):
